@@ -15,6 +15,8 @@ CFG_MAIN = {"max_incomplete": 64, "auth_timeout": 120000, "max_message_size": MA
 CFG_BOUND = {"max_incomplete": 4, "auth_timeout": 120000, "max_message_size": MAXMSG}
 CFG_TIMED = {"max_incomplete": 4, "auth_timeout": 1000, "max_message_size": MAXMSG}
 CFG_CLOSE = {"max_incomplete": 64, "auth_timeout": 120000, "max_message_size": MAXMSG, "fresh_daemon": 1}   # one daemon per script: unique names are predictable
+CFG_SLOTS = {"max_incomplete": 64, "auth_timeout": 120000, "max_message_size": MAXMSG, "fresh_daemon": 1,
+             "extra_limits": {"max_connections_per_user": 7, "max_match_rules_per_connection": 4}}    # 4 bystanders + 3 hostile slots
 FIRST_UNIQUE = 4          # on a fresh daemon of the run: :1.0 monitor, :1.1/:1.2 the pair, :1.3 the observer
 CFG_QUOTA = {"max_incomplete": 64, "auth_timeout": 120000, "max_message_size": MAXMSG, "extra_limits": {"max_outgoing_bytes": 200000}}
 
@@ -597,6 +599,72 @@ def gen_close(rnd, states=None, how=None):
     return d
 
 
+def gen_slots(rnd):
+    """the accounting a disconnect must release: max_connections_per_user = bystanders + 3, max_match_rules_per_connection = 4.
+    Registrations beyond the limit are refused and succeed once somebody has gone (by close, by an invalid stream, as a monitor
+    that closes); a monitor keeps its slot until then; rules are counted per connection."""
+    s = Script("slots", CFG_SLOTS, rnd)
+    n = rnd.randint(4, 6)
+    conns = [s.conn() for _ in range(n)]
+    ev = ["C%d" % c for c in conns] + ["W%d:%s" % (c, AUTH_OK.hex()) for c in conns]
+    state = {c: "auth" for c in conns}
+    RULES = ["type='signal'", "interface='c10.I'", "member='M'", "path='/c'", "arg0='x'", "type='method_call'", "sender='org.freedesktop.DBus'"]
+
+    def w(c, m):
+        ev.append("W%d:%s" % (c, m.encode().hex()))
+    if rnd.random() < 0.6:
+        # the boundary itself: three get in, the fourth is refused, one of the three leaves in some way, the fourth retries
+        for c in conns[:4]:
+            w(c, hello(s.next_serial())); state[c] = "hello?"
+        v = rnd.choice(conns[:3])
+        how = rnd.choice(("close", "invalid", "monitor-close", "monitor-stays"))
+        if how == "close":
+            ev.append("X%d" % v); state[v] = "gone"
+        elif how == "invalid":
+            ev.append("W%d:%s" % (v, (b"\x00" * 16).hex())); state[v] = "gone"
+        else:
+            w(v, become_monitor(s.next_serial())); state[v] = "monitor?"
+            w(conns[3], hello(s.next_serial()))           # a monitor still holds its slot: refused again
+            if how == "monitor-close":
+                ev.append("X%d" % v); state[v] = "gone"
+        w(conns[3], hello(s.next_serial()))
+    for _ in range(rnd.randint(n, 3 * n)):
+        c = rnd.choice(conns)
+        st = state[c]
+        r = rnd.random()
+        if st == "auth":
+            if r < 0.75:
+                w(c, hello(s.next_serial()))            # model decides whether there is a slot
+                state[c] = "hello?"
+            elif r < 0.85:
+                ev.append("X%d" % c); state[c] = "gone"
+        elif st == "hello?":
+            # may be registered or refused; both continue sensibly: a refused one that sends something else than Hello to the driver
+            # only earns AccessDenied, one that addresses anybody else is closed
+            if r < 0.35:
+                w(c, hello(s.next_serial()))
+            elif r < 0.55:
+                for _ in range(rnd.choice((1, 4, 5, 6))):
+                    w(c, add_match(s.next_serial(), rnd.choice(RULES)))
+            elif r < 0.65:
+                w(c, request_name(s.next_serial(), "c10.s%d" % c, 0))
+            elif r < 0.75:
+                w(c, become_monitor(s.next_serial())); state[c] = "monitor?"
+            elif r < 0.9:
+                ev.append("X%d" % c); state[c] = "gone"
+            else:
+                ev.append("W%d:%s" % (c, (b"\x00" * 16).hex())); state[c] = "gone"
+        elif st == "monitor?":
+            if r < 0.5:
+                ev.append("X%d" % c); state[c] = "gone"
+    for c in conns:
+        if state[c] != "gone" and rnd.random() < 0.6:
+            ev.append("X%d" % c)
+    d = s.done(ev)
+    d["fresh"] = True
+    return d
+
+
 def hand_written():
     """boundary scenarios (also kept in corpus/C10)"""
     rnd = random.Random(0)
@@ -641,7 +709,7 @@ def hand_written():
 FAMILIES = [(gen_mutation, 30), (gen_limits, 8), (gen_truncate, 10), (gen_handshake, 14), (gen_prehello, 10), (gen_oversized, 4), (gen_many_unauth, 8)]
 
 
-def generate(rnd, n_plain, n_flood, n_timed, n_blast=0, n_close=0):
+def generate(rnd, n_plain, n_flood, n_timed, n_blast=0, n_close=0, n_slots=0):
     scripts = hand_written()
     tot = sum(w for _, w in FAMILIES)
     for _ in range(n_plain):
@@ -664,4 +732,6 @@ def generate(rnd, n_plain, n_flood, n_timed, n_blast=0, n_close=0):
         scripts.append(gen_close(rnd, [st], "close"))
     for _ in range(n_close):
         scripts.append(gen_close(rnd))
+    for _ in range(n_slots):
+        scripts.append(gen_slots(rnd))
     return scripts
